@@ -74,6 +74,7 @@ type Cfg struct {
 	DtFn        func(h int64) int64    // overrides the block time step (milliseconds) of block h when it returns > 0
 	ForceAbsent func(h int64) []string // validators (hex addresses) that do not sign the commit of block h-1, on top of the schedule
 	Evid        bool                   // occasionally include duplicate-vote evidence
+	QuietAt     func(h int64) bool     // blocks in which every validator signs and no evidence is included, whatever the schedule says
 	// Hooks
 	Setup      func(r *hist.Runner) error
 	PerReplica func(r *hist.Runner, h int64, i int, base proto.Recipe, sofar *hist.Block) *proto.Recipe
@@ -146,6 +147,9 @@ func Run(cfg Cfg) *Result {
 			if dt := cfg.DtFn(c.H); dt > 0 {
 				plan.DtMs = dt
 			}
+		}
+		if cfg.QuietAt != nil && cfg.QuietAt(c.H) {
+			plan.Absent, plan.Evidence = nil, nil
 		}
 		if cfg.ForceAbsent != nil {
 			plan.Absent = append(plan.Absent, cfg.ForceAbsent(c.H)...)
